@@ -34,7 +34,7 @@ type c06Case struct {
 // c06MultiByte switches c06Reason to multi-byte reasons for the current case (cases run one at a time).
 var c06MultiByte bool
 
-var c06PartialTimings = []string{"partial-fin", "partial-frag1", "partial-frag2", "unread-queued", "writer-open-compressed"}
+var c06PartialTimings = []string{"partial-fin", "partial-frag1", "partial-frag2", "unread-queued", "writer-open-compressed", "slow-peer"}
 
 // c06ReasonMB: a reason of exactly n BYTES made of two-byte characters (and one ASCII
 // letter when n is odd): the 123-byte limit of RFC 6455 counts bytes, not characters.
@@ -167,6 +167,25 @@ func runC06Local(t fataler, c c06Case) string {
 	case "read-pending":
 		readDone = e.Call(func() { _, _, readErr = conn.Read(context.Background()) })
 		synctest.Wait()
+	case "slow-peer":
+		// the peer takes the Close frame only after 3 s and answers 3 s after that: each step is within
+		// the 5 s the library allows for it, the two together are not
+		lc.End.SetInBudget(0)
+		e.Go(func() {
+			if e.sleep(3 * time.Second) {
+				lc.End.SetInBudget(-1)
+			}
+		})
+		p.onFrame = func(f ref.Frame) {
+			if f.Opcode == ref.OpClose {
+				pl := f.Payload
+				e.Go(func() {
+					if e.sleep(3 * time.Second) {
+						p.send(ref.Frame{Fin: true, Opcode: ref.OpClose, Payload: pl})
+					}
+				})
+			}
+		}
 	case "writer-open-compressed":
 		// a streamed compressed message is open, and exactly its first frame is out, when Close is called
 		var werr error
@@ -312,9 +331,18 @@ func runC06Recv(t fataler, c c06Case) string {
 		err error
 	}
 	var reads []rd
+	stalledEcho := c.Timing == "read-deadline-echo-stalled"
 	readLoop := func() {
 		for {
-			typ, b, err := conn.Read(context.Background())
+			rctx := context.Background()
+			if stalledEcho {
+				// the reader's own deadline passes while the echo of the peer's Close frame is held up by
+				// the transport: the echo is the library's business, not bounded by the caller's context
+				var cancel context.CancelFunc
+				rctx, cancel = context.WithTimeout(rctx, time.Second)
+				defer cancel()
+			}
+			typ, b, err := conn.Read(rctx)
 			reads = append(reads, rd{typ, b, err})
 			if err != nil {
 				return
@@ -326,6 +354,14 @@ func runC06Recv(t fataler, c c06Case) string {
 	if c.Timing == "read-pending" || c.Timing == "read-pending-hangup" {
 		readDone = e.Call(readLoop)
 		synctest.Wait()
+	}
+	if stalledEcho {
+		lc.End.SetInBudget(0) // the peer does not take anything for the next 3 s
+		e.Go(func() {
+			if e.sleep(3 * time.Second) {
+				lc.End.SetInBudget(-1)
+			}
+		})
 	}
 	if c.Timing == "after-msg" {
 		p.send(ref.Frame{Fin: true, Opcode: ref.OpBinary, Payload: []byte("before close")})
@@ -429,7 +465,7 @@ func runC06Recv(t fataler, c c06Case) string {
 
 func TestC06(t *testing.T) {
 	rec := evid.For("C06")
-	rec.Rule = "local Close over every wire code 0..65535 plus out-of-range values x reason-length class x role x timing (idle, after a write, with a Read pending, after the application read only k of the 200 bytes of an unfragmented or fragmented message, with further unread messages queued, with a streamed compressed message open whose first frame is out; reasons of ASCII or two-byte characters); received Close frame over every code x reason class x role x timing (scripted raw peer, virtual time); rapid-drawn mixed cases incl. library<->library and Close/CloseNow call sequences. Non-trivial: sendable code with non-empty reason, or an unsendable code/oversize reason, or repeated close calls. distinct = (kind, code class, reason class, role, timing[, call sequence])."
+	rec.Rule = "local Close over every wire code 0..65535 plus out-of-range values x reason-length class x role x timing (idle, after a write, with a Read pending, after the application read only k of the 200 bytes of an unfragmented or fragmented message, with further unread messages queued, with a streamed compressed message open whose first frame is out, against a peer that takes the Close frame after 3 s and echoes 3 s later; reasons of ASCII or two-byte characters); received Close frame over every code x reason class x role x timing incl. a reader whose own 1 s deadline passes while the echo is held up by the transport for 3 s (scripted raw peer, virtual time); rapid-drawn mixed cases incl. library<->library and Close/CloseNow call sequences. Non-trivial: sendable code with non-empty reason, or an unsendable code/oversize reason, or repeated close calls. distinct = (kind, code class, reason class, role, timing[, call sequence])."
 	seed := evid.Seed()
 	var rc c06Case
 	if replayCase(t, &rc) {
@@ -503,6 +539,9 @@ func TestC06(t *testing.T) {
 			for n := 118; n <= 130; n++ {
 				one(c06Case{Kind: "local", Client: cl, Code: 1000, ReasonLen: n, Timing: "idle", MB: true})
 			}
+			for _, code := range []int{1000, 1001, 4001} {
+				one(c06Case{Kind: "recv", Client: cl, Code: code, ReasonLen: 7, Timing: "read-deadline-echo-stalled"})
+			}
 			for _, tm := range c06PartialTimings {
 				for _, part := range []int{0, 1, 50, 99} {
 					one(c06Case{Kind: "local", Client: cl, Code: 1000, ReasonLen: 4, Timing: tm, Part: part})
@@ -556,7 +595,7 @@ func TestC06Mixed(t *testing.T) {
 				c.Part = rapid.IntRange(0, 199).Draw(rt, "part")
 			}
 		case "recv":
-			c.Timing = rapid.SampledFrom([]string{"read-pending", "read-after", "after-msg", "read-pending-hangup", "read-after-hangup"}).Draw(rt, "timing")
+			c.Timing = rapid.SampledFrom([]string{"read-pending", "read-after", "after-msg", "read-pending-hangup", "read-after-hangup", "read-deadline-echo-stalled"}).Draw(rt, "timing")
 			if rl > 123 {
 				c.ReasonLen = 123
 			}
